@@ -611,6 +611,9 @@ func (e *Engine) rangeLoop(fr *frame, st *State, label string, s *ast.RangeStmt,
 			n = xs.T // Go 1.22: for i := range n
 		} else {
 			n = lenOf(xs)
+			if xs.Ty.K == spec.KList { // program values are well-formed lists
+				st.facts = append(st.facts, sx.App(">=", n, sx.Int(0)))
+			}
 		}
 		e.loopCore(fr, st, label, s, map[types.Object]bool{idxObj: true}, func(st *State, kk cont) {
 			kk(st, mk(sx.App("<", st.vars[idxObj].T, n), spec.KBool))
@@ -1126,6 +1129,7 @@ func (e *Engine) loopCore(fr *frame, st *State, label string, node ast.Node, ext
 		h.store = e.sym("st", "Store")
 		h.notifs = spec.LogVal{Base: e.sym("notifs", "Int").A}
 		h.xcalls = spec.LogVal{Base: e.sym("xcalls", "Int").A}
+		h.facts = append(h.facts, sx.App(">=", sx.Atom(h.notifs.Base), sx.Int(0)), sx.App(">=", sx.Atom(h.xcalls.Base), sx.Int(0)))
 		h.xgen = e.nextGen()
 		h.xm = map[string]spec.LogVal{} // every per-method log gets a fresh base on its next use
 		if e.Sweep {
